@@ -171,27 +171,37 @@ func TestCheck(t *testing.T) {
 	cfg := mon.Load("C15")
 	rep := mon.NewReporter(cfg,
 		"exploration",
-		"a case = successor input type x 1..3 predecessors (START and/or lambda nodes; successor = END or a lambda node) x 1..6 declarations "+
-			"(field mappings in all six constructor forms, whole-output inputs, SetStaticValue) generated over a universe of 14 declared "+
-			"source and 14 target types (nested structs, pointers, pointer to pointer, map[string]T with struct/pointer/string elements, "+
-			"map[string]any, any holes up to 5 levels, any- and Shape-typed fields). Every predecessor is declared in one of six ways (AddInput; "+
+		"a case = successor input type x 1..3 predecessors (START and/or lambda nodes; successor = END, a lambda node with Invoke and Transform forms, or "+
+			"a lambda node with the Invoke form only) x 1..6 declarations "+
+			"(field mappings in all six constructor forms, whole-output inputs, SetStaticValue) generated over a universe of 21 declared "+
+			"source and 21 target types (nested structs, pointers, pointer to pointer, map[string]T with struct/pointer/string elements, "+
+			"map[string]any, any holes up to 5 levels, any- and Shape-typed fields, structs with embedded structs: by value, by pointer, two "+
+			"embedded pointers deep, pointer to an unexported type, as map elements - promoted field names and the embedded fields are both path elements). "+
+			"7% of the cases map one source position onto the whole successor input (FromField/FromFieldPath) of any type. "+
+			"In 30% of the non-overlapping cases a branch (four constructor forms) below a gate node selects none, some or all of the gated lambda predecessors "+
+			"while a control-only predecessor of the successor (a node picked by the same branch, a node below START, START, the gate) finishes: the "+
+			"skipped predecessors contribute nothing, with all of them skipped the successor runs on the zero value plus static values. Every predecessor is declared in one of six ways (AddInput; "+
 			"AddInputWithOptions; AddInputWithOptions+WithNoDirectDependency with AddDependency next to it before/after, with a relay node, or below a "+
 			"branch that selects the successor; the deprecated AddEnd), mixed freely inside one set. Source paths continue up to 6 elements through one "+
 			"or two interface-typed positions into dynamic values of 12 shapes (structs, pointers, typed maps, map[string]any, nested). Predecessor "+
 			"outputs are concrete values (nil pointers / absent keys off the used paths, also inside dynamic values; at most one hostile element on a "+
 			"used path: at any interface-typed position of the path a nil / typed nil / non-container / map with non-string key / struct or map that "+
 			"lacks a step at any depth below concretely typed fields, elements of typed maps or run-time made structs / a look-alike struct / a value of "+
-			"another type or nil at the end). 40% of the cases get one overlapping declaration; the set without it must compile (else the case is skipped); "+
+			"another type or nil at the end; a nil embedded pointer behind a promoted field; nil in the interface-typed position that feeds the whole input). 40% of the cases get one overlapping declaration; the set without it must compile (else the case is skipped); "+
 			"4% of the others get one path that leaves the declared types (refused by Compile, or every run must return an error). "+
 			"Every case is compiled in all declaration orders (<=4 declarations; 24 random orders above), 3x each. Non-trivial = the declaration set overlaps and >=2 "+
 			"orders were compiled, or it does not overlap, was accepted, has >=2 declarations or a nested path, and two accepted orders were "+
-			"each run 3x with Invoke and 6x in stream mode (3 chunkings), every run compared with the reference, the predecessor outputs "+
+			"each run 3x with Invoke and 7x in stream mode (Stream, Transform, Collect; 3 chunkings; 4x with single chunks when the successor needs one assembled value), "+
+			"every run compared with the reference, Invoke and Stream compared with each other also where no value is due, the predecessor outputs "+
 			"hashed after every run. Distinct = distinct (types, ways of declaring, mapping set, static paths).",
 		[]string{
 			"the reference (own reflect walker for path get/set, overlap predicate, canonical rendering) is written from the property statement",
 			"where no value exists at a source path (absent map key, nil pointer or nil interface on the way) an error and 'target left unset' are both accepted, a panic is not",
 			"an untyped nil reaching a typed nillable position may be refused with an error",
-			"stream runs are compared chunk-wise (one target chunk per source chunk and predecessor, one for the static values), not through the framework's concat of user types",
+			"stream runs are compared chunk-wise (one target chunk per source chunk and predecessor, one for the static values), not through the framework's concat of user types; "+
+				"a successor with the Invoke form only (and END under Collect) must receive the Invoke value when every predecessor emits its output as one chunk",
+			"two target paths overlap when they denote the same or nested positions of the input value, however the fields are spelled (promoted name / through the embedded field)",
+			"instantiated but empty containers (pointer to a zero struct, empty map) count as zero-valued",
 			"acceptance of non-overlapping sets is counted, not demanded (the property only speaks about accepted sets)",
 			"schedules/goroutine interleavings inside eino vary between runs and are not controlled",
 		},
@@ -212,6 +222,14 @@ func TestCheck(t *testing.T) {
 	rep.Require("dynamic_source_paths_run/3_steps_below_the_first_interface", int64(cfg.Pick(10, 200)))
 	rep.Require("dynamic_source_paths_run/through_two_interfaces", int64(cfg.Pick(10, 200)))
 	rep.Require("errors_observed_for_a_step_missing_deeper_below_an_interface", int64(cfg.Pick(5, 100)))
+	rep.Require("sets_run_with/all-mapped-predecessors-skipped-by-a-branch", int64(cfg.Pick(20, 400)))
+	rep.Require("sets_run_with/some-mapped-predecessors-skipped-by-a-branch", int64(cfg.Pick(10, 200)))
+	rep.Require("mappings_run/target-field-promoted-from-an-embedded-struct", int64(cfg.Pick(50, 1000)))
+	rep.Require("mappings_run/source-field-promoted-from-an-embedded-struct", int64(cfg.Pick(50, 1000)))
+	rep.Require("mappings_run/whole-input-of-a-container-type-from-one-source-position", int64(cfg.Pick(20, 400)))
+	rep.Require("stream_runs_in_which_one_input_value_is_assembled", int64(cfg.Pick(100, 2000)))
+	rep.Require("hostile/nil-embedded-pointer-on-source-path", int64(cfg.Pick(5, 100)))
+	rep.Require("hostile/nil-interface-value-for-whole-input", int64(cfg.Pick(5, 100)))
 
 	ctx := context.Background()
 	n := int64(cfg.Pick(500, 50000))
@@ -452,6 +470,7 @@ func runCase(ctx context.Context, rep *mon.Reporter, rng *mon.Rand, c *Case, idx
 		} else {
 			plan = append(plan, srun{sels[rng.Intn(3)], 2})
 		}
+		concatFailed := false // a streaming run failed where Invoke delivers, and values of the input type had to be put together
 		keys := map[string][]string{}
 		fails := map[string]*outcome{}
 		var full outcome
@@ -470,7 +489,8 @@ func runCase(ctx context.Context, rep *mon.Reporter, rng *mon.Rand, c *Case, idx
 			}
 			if assembled {
 				rep.Count("stream_runs_in_which_one_input_value_is_assembled", 1)
-				if out.Kind == "error" && c.invokeOK && !expS.May && !expS.Must && c.concatOfInputTypeNeeded(parts) {
+				if out.Kind == "error" && invOut.Kind == "value" && !expS.Must && c.concatOfInputTypeNeeded(parts) {
+					concatFailed = true
 					// Invoke delivers the value; the streaming run cannot put the partial structs together
 					rep.Violation("C15/invoke-stream-differ/successor-input-assembled-from-per-predecessor-chunks",
 						fmt.Sprintf("Invoke hands the successor %s; the streaming run (%s) of the same compiled workflow on the same input fails: %s\nevery predecessor's mapped values (and the static values) become a value of the input type on their own: %s",
@@ -506,7 +526,9 @@ func runCase(ctx context.Context, rep *mon.Reporter, rng *mon.Rand, c *Case, idx
 			}
 		}
 		// Invoke against stream: both deliver or both fail (the streaming run with every output as a single chunk)
-		if (invOut.Kind == "error") != (full.Kind == "error") && invOut.Kind != "panic" && full.Kind != "panic" && (expI.May || expI.Must) {
+		if concatFailed {
+			// already reported under its own signature
+		} else if (invOut.Kind == "error") != (full.Kind == "error") && invOut.Kind != "panic" && full.Kind != "panic" && (expI.May || expI.Must) {
 			rep.Violation("C15/invoke-stream-differ/"+modeDiffClass(expI),
 				fmt.Sprintf("the same compiled workflow on the same input: Invoke -> %s, Stream -> %s\nreference: %s", short(invOut.label()+" "+invOut.Err, 400), short(full.label()+" "+full.Err, 400), expI.describe()),
 				c.witness(ordStr, ""))
